@@ -1,7 +1,7 @@
 (* Hnsw/Small.v — C07: insert-only collections of at most 2M+1 items keep level 0 connected.
    No level-0 link is ever pruned (a vertex has at most n-1 <= 2M = mMax0 distinct neighbours), every inserted vertex
    is linked both ways with at least one earlier vertex, so every vertex is reachable from every other along level 0.
-   Together with Hnsw/Cover.v (a beam as wide as the index is a complete traversal) this gives the exactness clause
+   Both selection modes, with or without extendCandidates and keepPruned.  Together with Hnsw/Cover.v (a beam as wide as the index is a complete traversal) this gives the exactness clause
    of C07 for every insert-only history within the bound: [C07_exact_statement] is proved at the end. *)
 From Verif Require Import Base.Prelude Store.Spec Store.Partition Store.Proofs Store.Simple Hnsw.Model Hnsw.Frame Hnsw.Inv Hnsw.Search Hnsw.Exact Hnsw.Cover.
 From Coq Require Import Sorted ZifyN ZifyBool ZifyNat.
@@ -57,32 +57,49 @@ Section Small.
   Variable ord : list edge -> list edge.
   Variable c : cfg.
   Hypothesis ord_perm : forall es, Permutation (ord es) es.
-  Hypothesis noext : c_extend c = false.
 
   Lemma in_ord e es : In e (ord es) <-> In e es.
   Proof. split; apply Permutation_in; [apply ord_perm|apply Permutation_sym; apply ord_perm]. Qed.
 
-  Lemma select_sub s q l k level x : In x (select dist ord c s q l k level) -> In x l.
+  (* whatever the selection mode (with or without extendCandidates): a selected vertex is one of the candidates or the
+     target of a link of that level *)
+  Lemma select_closed (P : nat -> Prop) s q l k level : (forall x, In x l -> P (snd x)) ->
+    (forall m e, In e (edges_at (vget s m) level) -> P (fst e)) -> forall x, In x (select dist ord c s q l k level) -> P (snd x).
   Proof.
-    unfold select, select_simple, select_heur. rewrite noext. destruct (c_heur c); apply in_firstn.
+    intros Hl He x. unfold select, select_simple, select_heur. destruct (c_heur c); [|intros H; apply Hl; eapply in_firstn; eauto].
+    intros H. apply in_firstn in H. destruct (c_extend c); [|apply Hl; auto].
+    assert (INNER : forall es (st : list qitem * list nat), (forall e, In e es -> P (fst e)) -> (forall y, In y (fst st) -> P (snd y)) ->
+              forall y, In y (fst (fold_left (extend_visit dist s q) es st)) -> P (snd y)).
+    { induction es as [|e es IH]; intros st Hes Hst y; simpl; [apply Hst|]. apply IH; [intros; apply Hes; right; auto|].
+      intros z Hz. unfold extend_visit in Hz. destruct (negb (live s (fst e))); [apply Hst; auto|].
+      destruct (mem_nat (fst e) (snd st)); [apply Hst; auto|]. simpl in Hz. apply in_qins in Hz. destruct Hz as [->|Hz]; [simpl; apply Hes; left; auto|apply Hst; auto]. }
+    assert (OUTER : forall (xs : list qitem) (st : list qitem * list nat), (forall y, In y (fst st) -> P (snd y)) ->
+              forall y, In y (fst (fold_left (fun st x0 => fold_left (extend_visit dist s q) (ord (edges_at (vget s (snd x0)) level)) st) xs st)) -> P (snd y)).
+    { induction xs as [|x0 xs IH]; intros st Hst y; simpl; [apply Hst|]. apply IH. apply INNER; auto.
+      intros e Hin. apply (proj1 (in_ord _ _)) in Hin. eapply He; eauto. }
+    revert H. apply OUTER. simpl. exact Hl.
   Qed.
 
-  (* pruning keeps a subset of the vertex's own links *)
-  Lemma prune_sub s t k level e m l' :
-    In e (edges_at (vget (prune dist ord c s t k level) m) l') -> In e (edges_at (vget s m) l').
+  (* pruning: a link kept or created at [level] points where some link of that level already pointed; other levels and
+     other vertices are untouched *)
+  Lemma prune_edges s t k level e m l' :
+    In e (edges_at (vget (prune dist ord c s t k level) m) l') ->
+    In e (edges_at (vget s m) l') \/ (l' = level /\ exists m' e', In e' (edges_at (vget s m') level) /\ fst e = fst e').
   Proof.
     unfold prune. rewrite edges_set_edges.
     destruct ((Nat.eqb t m && Nat.ltb t (length (arena s))) && (Nat.eqb level l' && Nat.ltb level (length (vedges (vget s t)))))%bool eqn:E; auto.
     apply andb_true_iff in E. destruct E as (E1 & E2). apply andb_true_iff in E1. destruct E1 as (E1 & _).
     apply andb_true_iff in E2. destruct E2 as (E2 & _). apply Nat.eqb_eq in E1, E2. subst m l'.
-    intros H. apply in_map_iff in H. destruct H as (x & <- & Hx). apply select_sub in Hx.
-    assert (F : forall es acc, In x (fold_left (fun acc e => if live s (fst e) then qins (snd e, fst e) acc else acc) es acc) ->
-                In x acc \/ exists e, In e es /\ x = (snd e, fst e)).
-    { induction es as [|e es IH]; intros acc H; simpl in H; auto.
-      destruct (IH _ H) as [H1|(e' & He' & ->)]; [|right; exists e'; split; [right; auto|auto]].
-      destruct (live s (fst e)); auto. apply in_qins in H1. destruct H1 as [->|H1]; auto.
-      right. exists e. split; [left; auto|auto]. }
-    destruct (F _ _ Hx) as [[]|(e & He & ->)]. apply (proj1 (in_ord _ _)) in He. destruct e; simpl; auto.
+    intros H. right. split; [reflexivity|]. apply in_map_iff in H. destruct H as (x & <- & Hx). cbn [fst].
+    revert x Hx. apply (select_closed (fun v => exists m' e', In e' (edges_at (vget s m') level) /\ v = fst e')).
+    - assert (F : forall es acc x, In x (fold_left (fun acc e => if live s (fst e) then qins (snd e, fst e) acc else acc) es acc) ->
+                  In x acc \/ exists e, In e es /\ x = (snd e, fst e)).
+      { induction es as [|e es IH]; intros acc x H; simpl in H; auto.
+        destruct (IH _ _ H) as [H1|(e' & He' & ->)]; [|right; exists e'; split; [right; auto|auto]].
+        destruct (live s (fst e)); auto. apply in_qins in H1. destruct H1 as [->|H1]; auto.
+        right. exists e. split; [left; auto|auto]. }
+      intros x Hx. destruct (F _ _ _ Hx) as [[]|(e & He & ->)]. apply (proj1 (in_ord _ _)) in He. exists t, e. auto.
+    - intros m e He. exists m, e. auto.
   Qed.
 
   (* ---- vertices the traversals can name: closed under following links ---- *)
@@ -181,7 +198,7 @@ Section Small.
   Lemma G_prune s1 n j s' t k l : G s1 n j s' -> G s1 n j (prune dist ord c s' t k l).
   Proof.
     intros (D & E & V). split; [eapply same_data_trans; [exact D|apply prune_data]|split].
-    - intros m l' e He. apply prune_sub in He. eapply E; eauto.
+    - intros m l' e He. apply prune_edges in He. destruct He as [He|(-> & m' & e' & He' & ->)]; [eapply E; eauto|]. eapply E; eauto.
     - intros m. unfold prune. rewrite vedges_len_set_edges. apply V.
   Qed.
 
@@ -331,10 +348,15 @@ Section Small.
     destruct (search_level_good dist ord s' (vvec (vget s' n)) ep (c_efc c) lev Lep') as ((A & _ & _) & NE).
     split.
     - apply select_nonempty; auto. destruct OK as (_ & _ & _ & _ & _ & M). lia.
-    - intros x Hx. apply select_sub in Hx. split.
-      + eapply Forall_forall in A; eauto. destruct A as (_ & A2). rewrite (live_data s1 s' _ D). auto.
-      + apply (search_level_closed (fun v => v <> n) s' (vvec (vget s' n)) ep (c_efc c) lev Nep); auto.
-        intros m e He. apply (E m lev e He). lia.
+    - assert (G0 : goodq dist s' (vvec (vget s' n)) (search_level dist ord s' (vvec (vget s' n)) ep (c_efc c) lev)).
+      { destruct (search_level_good dist ord s' (vvec (vget s' n)) ep (c_efc c) lev Lep') as (G1 & _). exact G1. }
+      pose proof (select_good dist ord c s' (vvec (vget s' n)) _ (c_m c) lev G0) as (SA & _ & _).
+      intros x Hx. split.
+      + eapply Forall_forall in SA; eauto. destruct SA as (_ & A2). rewrite (live_data s1 s' _ D). auto.
+      + revert x Hx. apply (select_closed (fun v => v <> n)).
+        * intros x Hx. apply (search_level_closed (fun v => v <> n) s' (vvec (vget s' n)) ep (c_efc c) lev Nep); auto.
+          intros m e He. apply (E m lev e He). lia.
+        * intros m e He. apply (E m lev e He). lia.
   Qed.
 
   Definition post (s1 : hnsw) (n : nat) (s2 : hnsw) : Prop :=
@@ -545,7 +567,7 @@ Section Small.
 
   Theorem C07_exact_holds : C07_exact_statement dist ord c.
   Proof.
-    intros _ ops q k ND LEN M0 M1 WIDE _ SMALL.
+    intros _ ops q k ND LEN M0 M1 WIDE SMALL.
     destruct (small_inv ops ND LEN M0 M1) as (I & KS & L). set (s := insert_only dist ord c ops) in *.
     intros n0 Ln. unfold beam. destruct (entry s) as [e0|] eqn:EE.
     - pose proof (inv_entry _ I) as IE. rewrite EE in IE. destruct IE as (ide & Hide).
